@@ -1,6 +1,7 @@
 package main
 
 import (
+	"strings"
 	"bytes"
 	"encoding/json"
 	"fmt"
@@ -54,11 +55,15 @@ func cliJob(bin string, j job) any {
 	inprocArgs := []string{in}
 	outPath := ""
 	add := func(a ...string) { args = append(args, a...); inprocArgs = append(inprocArgs, a...) }
-	switch j.str("out") {
+	outKind := strings.TrimSuffix(j.str("out"), "+s") // "file+s": -o together with the stdout flag (the file still is the destination)
+	if strings.HasSuffix(j.str("out"), "+s") {
+		add("-s")
+	}
+	switch outKind {
 	case "file", "existing":
 		outPath = filepath.Join(dir, "out.html")
 		add("-o", outPath)
-		if j.str("out") == "existing" {
+		if outKind == "existing" {
 			os.WriteFile(outPath, []byte("OLD"), 0o644)
 		}
 	case "unwritable":
@@ -117,7 +122,7 @@ func cliJob(bin string, j job) any {
 	var timedOut bool
 	exits := []int{}
 	for i := 0; i < reps; i++ {
-		if j.str("out") == "existing" {
+		if outKind == "existing" {
 			os.WriteFile(outPath, []byte("OLD"), 0o644)
 		} else if outPath != "" {
 			os.Remove(outPath)
